@@ -116,8 +116,7 @@ class CodeGenerator(nunavut._generators.AbstractGenerator):
         """
         Subroutine of _handle_post_processors method.
         """
-        from nunavut._postprocessors import TrimTrailingWhitespace  # pylint: disable=import-outside-toplevel
-
+        from nunavut._postprocessors import LimitEmptyLines, TrimTrailingWhitespace  # pylint: disable=C0415
         if post_processors is None:
             post_processors = [TrimTrailingWhitespace()]
         else:
@@ -126,8 +125,9 @@ class CodeGenerator(nunavut._generators.AbstractGenerator):
                 if isinstance(pp, TrimTrailingWhitespace):
                     found_pp = True
                     break
-            if not found_pp:
-                post_processors.append(TrimTrailingWhitespace())
+            if not found_pp:  # trim before limiting: a whitespace-only line is empty only once it has been trimmed
+                limiters = [i for i, pp in enumerate(post_processors) if isinstance(pp, LimitEmptyLines)]
+                post_processors.insert(limiters[0] if limiters else len(post_processors), TrimTrailingWhitespace())
         return post_processors
 
     @classmethod
